@@ -56,16 +56,3 @@ Theorem ensure_unique_ids_invalid r g e :
   first_bad r = Some (g, e) -> ensure_unique r = Err (EIdsInvalid g e).
 Proof. intros H. unfold ensure_unique. rewrite dedup_sanity_spec, H. reflexivity. Qed.
 
-Theorem generate_ids_invalid_only r s teq g e :
-  generate r s teq = Err (EIdsInvalid g e) -> first_bad r = Some (g, e).
-Proof.
-  unfold generate. rewrite sanity_pass_spec.
-  destruct (first_bad r) as [[g' e']|] eqn:E.
-  - cbn. intros H; inversion H; reflexivity.
-  - cbn [bind]. intros H. exfalso.
-    (* after a successful sanity pass no EIdsInvalid can arise *)
-    destruct (flatten (s_dreg s) r) as [fl|er|m] eqn:F; cbn [bind] in H.
-    + revert H. generalize (@nil (list string * (N * type_ir))) as acc.
-      induction r as [|[id t] l IH]; intros acc H; cbn [gen_loop] in H; [discriminate|].
-      destruct (subs_contains (s_subs s) (t_path t)); [eapply IH; eauto|].
-Abort.
